@@ -10,6 +10,7 @@ Request:  (find <len> (names "x" …) <expr>)
   arg  := (lo hi id)      bind := (pat (arg…) expr)     alt := (pat expr)
   field := (lo hi) | (lo hi expr)
   pat  := (pl lo hi [id]) | (pt lo hi pat…) | (pc lo hi idlen pat…) | (pa lo hi id pat)
+        | (pr lo hi field…)   field := (fs lo hi id) | (fv lo hi pat)   -- lo hi = span of the field NAME
 Answer: one result per byte offset 0 … len+2:
   (<found> (<enclosing, in push order>) (<near, in push order>) <sugg>) | panic | fuel
 -/
@@ -28,6 +29,9 @@ partial def parsePat : Sexp → Option Pat
   | .list (.atom "pc" :: a :: b :: n :: ps) => do
     pure (.ctor ⟨← nat? a, ← nat? b⟩ (← nat? n) (← parsePats ps))
   | .list [.atom "pa", a, b, c, p] => do pure (.as_ ⟨← nat? a, ← nat? b⟩ (← nat? c) (← parsePat p))
+  | .list (.atom "pr" :: a :: b :: fs) => do pure (.record ⟨← nat? a, ← nat? b⟩ (← parsePats fs))
+  | .list [.atom "fs", a, b, c] => do pure (.fieldShort ⟨← nat? a, ← nat? b⟩ (← nat? c))
+  | .list [.atom "fv", a, b, p] => do pure (.fieldVal ⟨← nat? a, ← nat? b⟩ (← parsePat p))
   | _ => none
 partial def parsePats : List Sexp → Option (List Pat)
   | [] => some []
@@ -78,7 +82,8 @@ end
 def renderM (m : M) : String :=
   let k := match m.kind, m.tag with
     | .expr, .plain => "e" | .expr, .proj => "ep" | .expr, .record => "er"
-    | .pattern, _ => "p" | .ident, _ => "i"
+    | .pattern, .recpat => "pr" | .pattern, _ => "p" | .ident, _ => "i"
+    | .expr, .recpat => "e"
   s!"({k} {m.span.lo} {m.span.hi})"
 
 def insertSorted (x : String) : List String → List String
